@@ -613,3 +613,58 @@ def memory_query_contract():
                     registry_ext={'attrs': {('memsource', 'filters'): attr_filters}, 'methods': {('.add', 'set'): m_add}},
                     assumptions=['callee contracts of MemorySource.query: FilterSet(filters) builds a new object with the argument\'s view and FilterSet.add unites views (proved), apply_common_filters '
                                  '(proved); the chain over self._data enumerates every stored version (assumed; the store histories of the bounded part exercise it); SATALL is extensional in the filter set'])
+
+
+def filesystem_query_contract():
+    """Slice contract of FileSystemSource.query: the filter bookkeeping.  The search shortcuts and every per-directory search see exactly the query, the source's own filters and the
+    handed-down ones; `auth_ids` and `version` are forwarded; the caller's query object is never written to.  What the directory walk returns is the business of the bounded part
+    (and of the optimiser's own contract, _find_search_optimizations, proved in contracts/filters.py)."""
+    base = memory_query_contract()
+    union_is = lambda t, u: t[u] == z3.Or(z3.And(z3.Not(Q_NONE), Q_VIEW[u]), SELF_F[u], z3.And(z3.Not(DOWN_NONE), DOWN_F[u]))
+
+    def filters_arg(x, node, p, site):
+        outs = list(x.ev(node, p))
+        if len(outs) != 1 or isinstance(outs[0][1], Exc): raise Unsupported(site + ' filter argument')
+        v = outs[0][1]; u = z3.FreshConst(E.S, 'u')
+        if v.sort == 'opt:set': return z3.Lambda([u], z3.And(z3.Not(v.t[0]), v.t[1].t[u]))
+        if v.sort == 'set': return v.t
+        raise Unsupported(site + ' filter argument of sort ' + v.sort)
+
+    def h_find_opt(x, e, p, site):
+        if len(e.args) != 1 or e.keywords: raise Unsupported(site + ' call shape')
+        t = filters_arg(x, e.args[0], p, site); u = z3.FreshConst(E.S, 'u')
+        x.oblige('call(_find_search_optimizations): the shortcuts are derived from exactly the query, the source\'s own filters and the ones handed down', p.pc, z3.ForAll([u], union_is(t, u)), p.exact, 'call-requires')
+        yield p, Val('tuple', x=[Val('opaque', x='auth_types'), Val('opaque', x='auth_ids')])
+
+    def h_search(name):
+        def h(x, e, p, site):
+            args = [ast.unparse(a) for a in e.args]
+            ok = len(args) == 6 and not e.keywords and args[2] == 'auth_ids' and args[4] == 'version'
+            x.oblige(f'call({name}): auth_ids and the caller\'s version are forwarded', p.pc, z3.BoolVal(bool(ok)), p.exact, 'call-requires')
+            if not e.args:
+                yield p, Val('opaque', x='type_results'); return
+            t = filters_arg(x, e.args[0], p, site); u = z3.FreshConst(E.S, 'u')
+            x.oblige(f'call({name}): every object read is filtered by exactly the query, the source\'s own filters and the ones handed down', p.pc, z3.ForAll([u], union_is(t, u)), p.exact, 'call-requires')
+            yield p, Val('opaque', x='type_results')
+        return h
+
+    def opaque_exact(label):
+        def h(x, e, p, site): yield p, Val('opaque', x=label)
+        return h
+
+    def h_is_versioned(x, e, p, site): yield p, Bool(z3.FreshConst(z3.BoolSort(), 'versioned_dir'))
+
+    def m_extend(x, recv, args, e, p, site): yield p, NONE
+
+    handlers = {'FilterSet': base.handlers['FilterSet'], 'isinstance:FilterSet': base.handlers['isinstance:FilterSet'], '_find_search_optimizations': h_find_opt,
+                '_search_versioned': h_search('_search_versioned'), '_search_unversioned': h_search('_search_unversioned'), '_get_matching_dir_entries': opaque_exact('type_dirs'),
+                'os.path.join': opaque_exact('type_path'), '_is_versioned_type_dir': h_is_versioned}
+    reg = {'attrs': {('fssource', 'filters'): base.registry_ext['attrs'][('memsource', 'filters')]},
+           'methods': {('.add', 'set'): base.registry_ext['methods'][('.add', 'set')], ('.extend', 'litlist'): m_extend, ('.extend', 'opaque'): m_extend}}
+    c = Contract('stix2/datastore/filesystem.py::FileSystemSource.query', props=['C12', 'C13'],
+                 params={'self': Val('fssource', x={}), 'query': base.params['query'], 'version': 'opaque', '_composite_filters': base.params['_composite_filters']},
+                 ensures=[], raises={}, handlers=handlers, registry_ext=reg, loops={0: {'kind': 'inv', 'inv': lambda x, env, i, it: z3.BoolVal(True)}},
+                 havoc={'all_data': lambda v: Val('opaque', x="all_data'"), 'type_results': lambda v: Val('opaque', x="type_results'")}, note='slice: filter bookkeeping and forwarding',
+                 assumptions=['slice contract: the directory walk and what the per-directory searches return are not modelled (bounded part); callee contracts FilterSet(filters) / FilterSet.add (proved)'])
+    c.exact_opaque_iteration = True
+    return c
